@@ -84,7 +84,12 @@ FolAfterDrop(fo, s) == [n \in Nodes |-> IF fo[n] # NULL /\ fo[n].stream # 0 /\
 
 \* applying log entries Len(applied)+1 .. k of the node's own WAL to its DB (replay always resumes after
 \* the DB's commit offset, whatever the log holds below it)
-Applied(ap, w, k) == IF k > Len(ap) THEN ap \o SubSeq(w, Len(ap) + 1, k) ELSE ap
+\* (a hole - entries the node never received, see DeliverAppend - cannot be read: application stops before it)
+Applied(ap, w, k) == IF k > Len(ap)
+                     THEN LET H == {i \in (Len(ap) + 1)..k : w[i] = Hole}
+                              to == IF H = {} THEN k ELSE (CHOOSE i \in H : \A j \in H : i <= j) - 1
+                          IN ap \o SubSeq(w, Len(ap) + 1, to)
+                     ELSE ap
 
 NoParkedSync(n) == (lead[n] # NULL => lead[n].cbq = {}) /\ (fol[n] # NULL => fol[n].parked = {})
 Busy(n) == lead[n] # NULL /\ lead[n].busy
@@ -758,7 +763,7 @@ AckedDurable ==
     \A w \in acked, n \in Nodes :
         (Serving(n) /\ term[n] = w.t /\ w.off > lead[n].elHead.o) =>
             /\ w.off <= synced[n]
-            /\ Cardinality({f \in Nodes \ {n} : up[f] => (w.off <= synced[f] /\ wal[f][w.off] = wal[n][w.off])}) >= Quorum(lead[n].rf)
+            /\ Cardinality({f \in (meta.ens \cup meta.removed) \ {n} : up[f] => (w.off <= synced[f] /\ wal[f][w.off] = wal[n][w.off])}) >= Quorum(lead[n].rf)
 
 \* C08 "does not fail spuriously", as a state predicate: when nothing is in flight any more (every follower of
 \* a quorum is connected, has received, synced and acknowledged everything, all acks are delivered, no sync
